@@ -708,9 +708,28 @@ func (p *peer) handleBALs(kind string, id uint64, hashes []common.Hash) {
 		return out
 	}
 	send := func(id uint64, k string, items []rlp.RawValue) {
-		raw, err := rlp.EncodeToRawList(items)
+		built, err := rlp.EncodeToRawList(items)
 		if err != nil {
 			panic(err)
+		}
+		// Hand over what the wire decoder would hand over: EncodeToRawList trusts that every
+		// element is exactly one RLP value, which a hostile "garbage" element (a flipped header
+		// can turn one value into two) need not be; a RawList built that way has an item count
+		// that disagrees with its content and makes RawList.Items panic — a state the message
+		// decoder (RawList.DecodeRLP counts the values itself) can never produce. A response
+		// the decoder rejects never reaches the syncer.
+		var raw rlp.RawList[rlp.RawValue]
+		if err := rlp.DecodeBytes(built.Bytes(), &raw); err != nil {
+			// cannot happen with the element check in the "garbage" case; answer with refusals
+			// rather than leaving the request open
+			c.noteKind("bal", "rejected-by-message-decoder")
+			for i := range items {
+				items[i] = rlp.EmptyString
+			}
+			built, _ = rlp.EncodeToRawList(items)
+			if err := rlp.DecodeBytes(built.Bytes(), &raw); err != nil {
+				panic(err)
+			}
 		}
 		p.deliver("bal", k, syn, func() error { return syn.OnAccessLists(p, id, raw) })
 	}
@@ -772,8 +791,8 @@ func (p *peer) handleBALs(kind string, id uint64, hashes []common.Hash) {
 	case "garbage":
 		i := p.intn(len(items))
 		items[i] = rlp.RawValue(flip(items[i], p.intn))
-		if _, _, _, err := rlp.Split(items[i]); err != nil {
-			items[i] = rlp.RawValue{0xc1, 0x01} // keep the outer list encodable
+		if _, _, rest, err := rlp.Split(items[i]); err != nil || len(rest) != 0 {
+			items[i] = rlp.RawValue{0xc1, 0x01} // keep the outer list encodable: exactly one value per element
 		}
 	case "toomany":
 		items = append(items, items[len(items)-1])
